@@ -401,21 +401,25 @@ package ugo
 //@ requires specScalar(o) && specKindOf(o) != kBytes
 //@ ensures specObjectRoundTrip(o)
 //@ cases o: Int, Uint, Float, Char, Bool, String, *UndefinedType
+//@ inline ToObject, ToObjectAlt, ToInterface
 //@ property C20
 
 //@ lemma goRoundTrip
 //@ vars v any
 //@ ensures specGoRoundTrip(v)
 //@ cases v: int64, uint64, float64, rune, bool, string
+//@ inline ToObject, ToObjectAlt, ToInterface
 //@ property C20
 
 //@ lemma goNilRoundTrip
 //@ ensures specGoRoundTrip(nil)
+//@ inline ToObject, ToObjectAlt, ToInterface
 //@ property C20
 
 //@ lemma goWidths
 //@ vars a int, b uint, c uintptr, d byte, e float32
 //@ ensures specIntWidths(a, b, c, d, e)
+//@ inline ToObject, ToObjectAlt, ToInterface
 //@ property C20
 
 // Neither direction panics (safety sweep; nested values by the functions' own contracts).
